@@ -875,3 +875,77 @@ package gomatrixserverlib
 //@   loop 2: invariant forall b int :: 0 <= b && b < idx(2) ==> !keyAccepts(requests[i], keyIDs[i][b], keys)
 //@   loop 2: invariant forall a int :: 0 <= a && a < i ==> ((results[a].Error == nil) <==> (old(results[a].Error) == nil || someKeyAccepts(requests[a], keyIDs[a], keys)))
 //@   loop 2: invariant forall a int :: i < a && a < len(requests) ==> results[a].Error == old(results[a].Error)
+
+//@ func ListKeyIDs
+//@   property C02, C12
+//@   ensures error: (err != nil) <==> !jok("struct{Signatures map[string]map[KeyID]json.RawMessage `json:\"signatures\"`}", message)
+//@   ensures keys: err == nil ==> (forall j int :: 0 <= j && j < len(result[0]) ==> result[0][j] in sigsOf(message)[signingName])
+//@   ensures complete: err == nil ==> (forall k string :: k in sigsOf(message)[signingName] ==> (exists j int :: 0 <= j && j < len(result[0]) && result[0][j] == k))
+//@   loop 1: invariant forall j int :: 0 <= j && j < len(result) ==> result[j] in sigsOf(message)[signingName]
+//@   loop 1: invariant forall k string :: seen(1)[k] ==> (exists j int :: 0 <= j && j < len(result) && result[j] == k)
+//@   assigns nothing
+
+//@ func (KeyRing).VerifyJSONs
+//@   property C12
+//@   requires k.KeyDatabase != nil
+//@   requires forall a int :: 0 <= a && a < len(requests) ==> requests[a].ValidityCheckingFunc != nil
+//@   requires forall f int :: 0 <= f && f < len(k.KeyFetchers) ==> k.KeyFetchers[f] != nil
+//@   ensures one-per-request: err == nil ==> len(result[0]) == len(requests)
+//@   ensures success-needs-key-check: (err == nil && (exists a int :: 0 <= a && a < len(requests) && result[0][a].Error == nil)) ==> called(checkUsingKeys)
+//@   calls checkUsingKeys same-batch: requests == old(requests) && len(results) == len(requests) && len(keyIDs) == len(requests)
+//@   calls KeyDatabase.FetchKeys database-first: !called(KeyFetcher.FetchKeys)
+//@   loop 1: invariant 0 <= idx(1) && idx(1) <= len(requests) && len(results) == len(requests) && len(keyIDs) == len(requests)
+//@   loop 1: invariant forall a int :: 0 <= a && a < idx(1) ==> results[a].Error != nil
+//@   loop 2: invariant 0 <= idx(2) && idx(2) <= len(ids)
+//@   loop 3: invariant forall s string, kk string :: seen(3)[s][kk] ==> (tuple(s, kk) in keysFetched && get(keysFetched, tuple(s, kk)) == get(keysFromDatabase, tuple(s, kk)))
+//@   loop 3: invariant forall s string, kk string :: (seen(3)[s][kk] && (get(keysFromDatabase, tuple(s, kk)).ExpiredTS != 0 || now < get(keysFromDatabase, tuple(s, kk)).ValidUntilTS)) ==> !(tuple(s, kk) in keyRequests)
+//@   loop 4: invariant 0 <= idx(4) && idx(4) <= len(results)
+//@   loop 6: invariant forall s string, kk string :: seen(6)[s][kk] ==> (tuple(s, kk) in keysFetched && get(keysFetched, tuple(s, kk)) == get(fetched, tuple(s, kk)) && !(tuple(s, kk) in keyRequests))
+//@   loop 5: invariant 0 <= idx(5) && idx(5) <= len(k.KeyFetchers)
+
+//@ func (*KeyRing).publicKeyRequests
+//@   property C12
+//@   requires len(results) == len(requests) && len(keyIDs) == len(requests)
+//@   ensures map: result != nil
+//@   ensures only-unresolved: forall s string, k string :: tuple(s, k) in result ==> keyWanted(requests, results, keyIDs, s, k, len(requests))
+//@   loop 1: invariant 0 <= idx(1) && idx(1) <= len(requests)
+//@   loop 1: invariant forall s string, k string :: tuple(s, k) in keyRequests ==> keyWanted(requests, results, keyIDs, s, k, idx(1))
+//@   loop 2: invariant 0 <= idx(2) && idx(2) <= len(keyIDs[i]) && results[i].Error != nil
+//@   loop 2: invariant forall s string, k string :: tuple(s, k) in keyRequests ==> keyWanted(requests, results, keyIDs, s, k, i + 1)
+//@   assigns nothing
+
+//@ func checkVerifyKeys
+//@   property C12
+//@   requires checks != nil && !checks.HasEd25519Key
+//@   ensures all-ok: checks.AllChecksOK <==> (old(checks.AllChecksOK) && (exists k string :: k in keys.VerifyKeys && isEd25519ID(k)) && (forall k string :: (k in keys.VerifyKeys && isEd25519ID(k)) ==> goodVerifyKey(keys, k)))
+//@   ensures returned-keys: forall k string :: k in result ==> (k in keys.VerifyKeys && isEd25519ID(k) && goodVerifyKey(keys, k) && result[k] == get(keys.VerifyKeys, k).Key)
+//@   ensures untouched: checks.MatchingServerName == old(checks.MatchingServerName) && checks.FutureValidUntilTS == old(checks.FutureValidUntilTS)
+//@   loop 1: invariant checks.AllChecksOK == old(checks.AllChecksOK)
+//@   loop 1: invariant checks.HasEd25519Key <==> (exists k string :: seen(1)[k] && isEd25519ID(k))
+//@   loop 1: invariant allEd25519ChecksOK <==> (forall k string :: (seen(1)[k] && isEd25519ID(k)) ==> goodVerifyKey(keys, k))
+//@   loop 1: invariant forall k string :: k in verifyKeys ==> (k in keys.VerifyKeys && isEd25519ID(k) && goodVerifyKey(keys, k) && verifyKeys[k] == get(keys.VerifyKeys, k).Key)
+//@   assigns *checks
+
+//@ func CheckKeys
+//@   property C12
+//@   ensures name: checks.MatchingServerName <==> serverName == keys.ServerName
+//@   ensures future: keys.ValidUntilTS <= 9223372036854775807 ==> (checks.FutureValidUntilTS <==> keys.ValidUntilTS * 1000000 > unixNano(now))
+//@   ensures all-ok: checks.AllChecksOK <==> (checks.MatchingServerName && checks.FutureValidUntilTS && (exists k string :: k in keys.VerifyKeys && isEd25519ID(k)) && (forall k string :: (k in keys.VerifyKeys && isEd25519ID(k)) ==> goodVerifyKey(keys, k)))
+//@   ensures keys-only-if-ok: !checks.AllChecksOK ==> ed25519Keys == nil
+//@   ensures returned-keys: forall k string :: k in ed25519Keys ==> (k in keys.VerifyKeys && isEd25519ID(k) && goodVerifyKey(keys, k))
+
+//@ func (*DirectKeyFetcher).fetchKeysForServer
+//@   property C12
+//@   requires d != nil && d.Client != nil
+//@   ensures checked: err == nil ==> (called(CheckKeys) && ret(CheckKeys, 0).AllChecksOK)
+//@   calls CheckKeys response-of-that-server: serverName == old(serverName) && keys == ret(GetServerKeys, 0)
+//@   calls CheckKeys valid-until-future: unixNano(now) == nowNano
+//@   calls mapServerKeysToPublicKeyLookupResult checked-response: serverKeys == ret(GetServerKeys, 0)
+
+//@ func (*DirectKeyFetcher).fetchNotaryKeysForServer
+//@   property C12
+//@   requires d != nil && d.Client != nil
+//@   ensures checked: err == nil ==> (called(CheckKeys) && ret(CheckKeys, 0).AllChecksOK)
+//@   calls CheckKeys response-names-server: serverName == old(serverName) && keys.ServerName == old(serverName)
+//@   calls CheckKeys valid-until-future: unixNano(now) == nowNano
+//@   loop 1: invariant 0 <= idx(1) && idx(1) <= len(allKeys)
